@@ -164,6 +164,7 @@ def run(ctx):
                 run_stream(ctx, m, proto, vals, data, cuts, eps, "tail-stream %s (%s)" % (proto.name, parts))
         m.close()
     tail_streams()
+    evolved_streams(ctx, quick)
 
     # large streams: the sweep model, padded
     pkg, cases = corpus.sweep_package()
@@ -242,6 +243,95 @@ def run(ctx):
         run_stream(ctx, bm, proto, vals, data, cuts, beps, "bigvalue %s" % pname)
     bm.close()
     cxx.prune_cache()
+
+
+def evolved_streams(ctx, quick):
+    """streams written under a *previous* version, read by the newest generated C++ reader (which converts: reads removed fields and drops them, fills
+    added ones): every proper prefix must be reported as an error, and the lines delivered before the error are a prefix of what the complete stream
+    delivers. The removed / added fields sit at the end of the last record of the stream (nothing follows them), in the middle, and inside stream items."""
+    import re
+    import shutil
+    from vlib import cli, emit
+    from vlib.refcodec import Codec
+    home = os.path.join(ctx.workdir, "home")
+    os.makedirs(home, exist_ok=True)
+    f32t = P("float32")
+    keep = [("id", P("uint32")), ("name", P("string"))]
+    shapes = {
+        "trailing-bulk-fields-removed": (keep + [("note", P("string")), ("trace", V(f32t)), ("img", A(P("float64"), 2)), ("raw", A(P("uint8"), None))], keep),
+        "trailing-mixed-fields-removed": (keep + [("counts", V(P("int32"))), ("maybe", Opt(P("string"))), ("blob", V(P("uint8")))], keep),
+        "middle-fields-removed": ([("id", P("uint32")), ("trace", V(f32t)), ("note", P("string")), ("name", P("string"))], keep),
+        "fields-added": (keep, keep + [("extra", Opt(V(f32t))), ("more", Opt(P("string")))]),
+        "field-widened-and-removed": ([("id", P("uint32")), ("name", P("string")), ("gain", f32t), ("samples", V(P("complexfloat32")))], [("id", P("uint32")), ("name", P("string")), ("gain", P("float64"))]),
+    }
+    names = list(shapes)[:2] if quick else list(shapes)
+    flavors = ["plain", "asan"] if quick else ["plain", "ndebug", "asan"]
+    for name in names:
+        fo, fn = shapes[name]
+
+        def mk(fields, versions, d):
+            return Pkg("Evo", [Rec("Item", fields), Proto("Evo", [("head", P("string")), ("items", S(N("Item"))), ("last", N("Item"))])], [], versions, d)
+        old = mk(fo, [], "v0")
+        new = mk(fn, [("v0", old)], "v1")
+        base = os.path.join(ctx.workdir, "cases", "evolved_" + name.replace("-", "_"))
+        shutil.rmtree(base, ignore_errors=True)
+        common.write_tree(base, emit.package_files(new, None, emit.default_outputs("../out_new", python=False, cpp_opts=cxx.cpp_gen_options({}))))
+        common.write_tree(os.path.join(base, "solo"), emit.package_files(old, None, emit.default_outputs("../out_old", python=False, cpp_opts=cxx.cpp_gen_options({"generateNDJson": False}))))
+        p1 = cli.run_cli("generate", os.path.join(base, new.dir), home)
+        p0 = cli.run_cli("generate", os.path.join(base, "solo", old.dir), home)
+        if p1.rc != 0 or p0.rc != 0:
+            raise Inconclusive("evolved-stream pair %s rejected: %s" % (name, cli.clean(p1.stderr + p0.stderr)[:300]))
+        sch_old = re.search(r'std::string EvoWriterBase::schema_ = R"\((.*?)\)";', open(os.path.join(base, "solo/out_old/cpp/protocols.cc")).read(), re.S).group(1)
+        try:
+            exes = {fl: cxx.build(os.path.join(base, "out_new/cpp"), fl) for fl in flavors}
+        except cxx.CompileError as e:
+            raise Inconclusive("evolved-stream pair %s does not compile: %s" % (name, str(e)[-300:]))
+        co = Codec(old)
+        po = old.find("Evo")
+        vals = values.ValueGen(co, rng("C16evo", name), json_safe=True, max_len=6).steps(po, stream_len=3)
+        data = co.encode_stream(po, sch_old, vals)
+        hdr = len(co.encode_stream(po, sch_old, vals, upto=0))
+        full = {}
+        for fl, exe in exes.items():
+            pr = cxx.run_driver(exe, ["Evo", "bin", "ndjson"], data, fl)
+            ctx.ev()
+            if pr.rc != 0 or pr.sig is not None:
+                raise Inconclusive("evolved-stream pair %s: the complete v0 stream is not read by the newest reader (%s): %s" % (name, fl, pr.stderr[-300:]))
+            full[fl] = [l for l in pr.out.decode("utf-8", "replace").split("\n") if l.strip()]
+        cuts = list(range(hdr, len(data))) + list(range(0, hdr, max(1, hdr // 30)))
+        cap = 1500 if quick else 20000
+        if len(cuts) > cap:
+            rr = rng("C16evocuts", name)
+            tail = [c for c in cuts if c >= len(data) - 300]
+            cuts = sorted(set(rr.sample(cuts, cap - len(tail)) + tail))
+
+        def one(cut):
+            for fl, exe in exes.items():
+                pr = cxx.run_driver(exe, ["Evo", "bin", "ndjson"], data[:cut], fl)
+                ctx.ev()
+                ctx.count("evolved-cut.cpp-" + fl)
+                what = "v0 stream (%s) cut at %d/%d, read by the newest reader [%s]" % (name, cut, len(data), fl)
+                sig = None
+                if pr.timed_out:
+                    raise Inconclusive("watchdog: " + what)
+                if pr.cpu_exceeded:
+                    sig, msg = "hang:cpp-%s:evolved" % fl, "reader does not terminate"
+                elif pr.sig is not None:
+                    sig, msg = "crash:cpp-%s:evolved:%s" % (fl, "sanitizer" if "Sanitizer" in pr.stderr or "runtime error:" in pr.stderr else "signal"), "reader died with signal %s: %s" % (pr.sig, pr.stderr[-300:])
+                elif pr.rc == 0:
+                    sig, msg = "mistaken-for-complete:cpp-%s:evolved" % fl, "reader completed normally on a truncated previous-version stream"
+                elif "Sanitizer" in pr.stderr or "runtime error:" in pr.stderr:
+                    sig, msg = "sanitizer:cpp-%s:evolved" % fl, pr.stderr[-400:]
+                else:
+                    lines = pr.out.decode("utf-8", "replace").split("\n")[:-1]
+                    lines = [l for l in lines if l.strip()]
+                    if lines != full[fl][:len(lines)]:
+                        sig, msg = "wrong-value:cpp-%s:evolved" % fl, "delivered lines are not a prefix of what the complete stream delivers"
+                if sig:
+                    ctx.violation(sig, "%s: %s" % (what, msg), {"case_dir": base, "cut": cut, "shape": name})
+            ctx.case(("evolved", name, cut))
+        pmap(one, cuts)
+        ctx.sample({"evolved_pair": name, "stream_bytes": len(data), "cuts": len(cuts)})
 
 
 def replay(ctx, path):
